@@ -149,11 +149,19 @@ func (p *exeParser) readField() (f *Field, err error) {
 	var b byte
 	var token string
 
-	token, err = p.readToken()
+	// Note the position of the first character of the field. After the token
+	// has been read the parser is one character past the token which could
+	// be on the next line.
+	_, err = p.skipSpace()
+	line := p.line
+	col := p.col
+	if err == nil {
+		token, err = p.readToken()
+	}
 	if len(token) == 0 && err == nil {
 		err = parseError(p.line, p.col, "a field name can not be blank")
 	}
-	f = &Field{SelBase: SelBase{line: p.line, col: p.col - len(token)}}
+	f = &Field{SelBase: SelBase{line: line, col: col}}
 	if err == nil {
 		b, err = p.skipSpace()
 	}
